@@ -7,7 +7,7 @@
    pathlib does (posixpath.join, posixpath.splitroot, split on '/', drop '' and '.').
 
    Code modelled (py7zr/helpers.py): canonical_path, is_relative_to, is_path_valid,
-   check_archive_path;  (py7zr/py7zr.py): SevenZipFile._sanitize_archive_arcname, the file name
+   check_archive_path (as repaired: lexical depth walk);  (py7zr/py7zr.py): SevenZipFile._sanitize_archive_arcname, the file name
    stored by _make_file_info/_make_file_info_from_name (pathlib.Path(arcname).as_posix()).
 
    Only definitions and the dispatcher here; proofs are in PathProofs.v. *)
@@ -180,17 +180,24 @@ Definition is_path_valid (cwd : str) (target parent : ppath) : bool :=
   if pp_is_absolute parent then h_is_relative_to (canonical_path target) parent
   else h_is_relative_to (canonical_path target) (pp_joinpath_p [cwd] parent).
 
-(* "/foo/boo/fuga/hoge/a90sufoiasj09/dafj08sajfa/" *)
-Definition dummy_parent : str :=
-  [47; 102; 111; 111; 47; 98; 111; 111; 47; 102; 117; 103; 97; 47; 104; 111; 103; 101; 47;
-   97; 57; 48; 115; 117; 102; 111; 105; 97; 115; 106; 48; 57; 47;
-   100; 97; 102; 106; 48; 56; 115; 97; 106; 102; 97; 47].
+(* PurePath.anchor = drive + root; posix: the root *)
+Definition pp_anchor (p : ppath) : str := fst (pp_parse p).
 
-Definition check_archive_path_cwd (cwd : str) (arcname : str) : bool :=
-  if pp_is_absolute [arcname] then false
-  else is_path_valid cwd (pp_joinpath [dummy_parent] arcname) [dummy_parent].
+(* the loop of check_archive_path over target.parts: '..' one level up (False as soon as the depth
+   would be negative), any other part one level down *)
+Fixpoint lex_walk (ps : list str) (depth : Z) : bool :=
+  match ps with
+  | [] => true
+  | p :: r =>
+      if str_eqb p s_dotdot then (if depth - 1 <? 0 then false else lex_walk r (depth - 1))
+      else lex_walk r (depth + 1)
+  end.
 
-Definition check_archive_path (arcname : str) : bool := check_archive_path_cwd [47] arcname.
+(* check_archive_path(arcname) (after the fix "check_archive_path accepted names that climb above the
+   archive root"): target = pathlib.Path(arcname) *)
+Definition check_archive_path (arcname : str) : bool :=
+  if pp_is_absolute [arcname] || negb (isnil (pp_anchor [arcname])) then false
+  else lex_walk (pp_parts [arcname]) 0.
 
 (* ---------------------------------------------------------------- py7zr/py7zr.py *)
 Definition is_ascii_alpha (c : Z) : bool :=
